@@ -4,3 +4,4 @@ pub mod rng;
 pub mod util;
 pub mod drive;
 pub mod irdump;
+pub mod postcanon;
